@@ -44,7 +44,7 @@ RULE = (
     "or history run with >= 2 operations of which >= 1 failing."
 )
 ASSUMPTIONS = [
-    "pre-emption granularity is one pyrtcm source line (a race needing a switch inside one line is out of reach)",
+    "pre-emption granularity is one pyrtcm source line (a race needing a switch inside one line is out of reach: bytecode-level tracing with f_trace_opcodes segfaults CPython 3.12.1 when several traced threads are parked inside the same code object, see DESIGN 9)",
     "baseline = same bytes/options computed alone in a freshly forked process (pristine import, nothing parsed before)",
     "exception texts are compared after normalising object addresses",
 ]
@@ -176,10 +176,10 @@ def _in_child(fn, arg):
             break
         chunks.append(chunk)
     os.close(r)
-    os.waitpid(pid, 0)
+    _, status = os.waitpid(pid, 0)
     buf = b"".join(chunks)
     if len(buf) < 4 or len(buf) - 4 != struct.unpack("<I", buf[:4])[0]:
-        raise HarnessError("child process died without a result")
+        raise HarnessError(f"child process died without a result (wait status {status}, {len(buf)} bytes received)")
     res = pickle.loads(buf[4:])
     if isinstance(res, tuple) and res and res[0] == "child-error":
         raise HarnessError("child process failed: " + res[1])
